@@ -23,6 +23,24 @@ SCRATCH_PARENT = os.environ.get('VERIF_SCRATCH') or (
     else tempfile.gettempdir())
 
 
+REAL_MOUNTS = False      # set by vf.realrun inside a private mount namespace
+
+
+def _mount_tmpfs(path):
+    import ctypes
+    libc = ctypes.CDLL(None, use_errno=True)
+    r = libc.mount(b'tmpfs', path.encode(), b'tmpfs', 0, b'size=64m,mode=0755')
+    if r != 0:
+        e = ctypes.get_errno()
+        raise OSError(e, 'mount tmpfs on %s: %s' % (path, os.strerror(e)))
+
+
+def _umount(path):
+    import ctypes
+    libc = ctypes.CDLL(None, use_errno=True)
+    libc.umount2(path.encode(), 2)       # MNT_DETACH
+
+
 def subst(s, R):
     if isinstance(s, str) and s.startswith('@'):
         return R + s[1:]
@@ -77,8 +95,11 @@ class World(object):
 
     def _build(self):
         R = self.R
-        for m in self.mounts:
+        self.real = REAL_MOUNTS
+        for m in sorted(self.mounts, key=len):
             os.makedirs(m, exist_ok=True)
+            if self.real:
+                _mount_tmpfs(m)
         late = []
         n = 0
         for nd in self.desc.get('nodes') or []:
@@ -120,6 +141,9 @@ class World(object):
         return snap.snapshot(self.R)
 
     def destroy(self):
+        if getattr(self, 'real', False):
+            for m in sorted(self.mounts, key=len, reverse=True):
+                _umount(m)
         # make everything removable first (modes like 0o000 on dirs)
         try:
             shutil.rmtree(self.scratch)
